@@ -33,6 +33,7 @@ The block ciphers come from ref.ciphers / ref.modes and are imported lazily.
 
 import base64
 import binascii
+import functools
 import hashlib
 import os
 import re
@@ -939,13 +940,12 @@ def _der_parse(data, what):
 
 
 def _wrap_der_errors(fn):
+    @functools.wraps(fn)
     def wrapper(*a, **kw):
         try:
             return fn(*a, **kw)
         except DerError as e:
             raise KeyFormatError(str(e))
-    wrapper.__name__ = fn.__name__
-    wrapper.__doc__ = fn.__doc__
     return wrapper
 
 
@@ -2343,6 +2343,9 @@ _VECTORS = [
       'type': 'ECC'}),
 ]
 
+# self-signed certificate (openssl req -new -x509) for the 'ec_sec1' key
+_CERT = '-----BEGIN CERTIFICATE-----\nMIIBejCCASGgAwIBAgIUEJZJ/3c489msPZMhA1FhvBXJ1JEwCgYIKoZIzj0EAwIw\nEzERMA8GA1UEAwwIcmVmIHRlc3QwHhcNMjYwOTI1MjM1NDI3WhcNMzYwOTIyMjM1\nNDI3WjATMREwDwYDVQQDDAhyZWYgdGVzdDBZMBMGByqGSM49AgEGCCqGSM49AwEH\nA0IABO8WkJSO0q9ORmQE2OCutbV8gmyG6rRnA4QiEqcL1Feb9CnE8X+jL8FCSaCD\nHKnnFcxa1Hn33WkEEPhp7Tz/aUujUzBRMB0GA1UdDgQWBBQ2d5GTbUoB86aJfsQD\nbq2sAlNxkTAfBgNVHSMEGDAWgBQ2d5GTbUoB86aJfsQDbq2sAlNxkTAPBgNVHRMB\nAf8EBTADAQH/MAoGCCqGSM49BAMCA0cAMEQCIAP3qqzszCR2vWzsUSo0Us76LKcC\nZHKC18nk22CJP4D6AiA+A/llKlaQNDLEO94DYNN6ymmW2qe5vXYe3v2rfqPX/g==\n-----END CERTIFICATE-----\n'
+
 # RFC 8410 section 10.1 / 10.3 examples (Ed25519)
 _RFC8410_PUB = "MCowBQYDK2VwAyEAGb9ECWmEzf6FQbrBZ9w7lshQhqowtrbLDFw4rXAxZuE="
 _RFC8410_PRIV = "MC4CAQAwBQYDK2VwBCIEINTuctv5E1hK1bbY8fdp+K06/nwoy/HU++CXqI9EdVhC"
@@ -2478,6 +2481,10 @@ def self_test(verbose=False):
         # a passphrase is ignored when nothing is encrypted
         if pw is None:
             assert strip_meta(parse_any(text, b'unused')) == strip_meta(got)
+    cert = parse_any(_CERT)
+    assert strip_meta(cert) == strip_meta(by_name['ec_spki'])
+    assert cert['_format'] == \
+        'PEM(CERTIFICATE)/Certificate/SubjectPublicKeyInfo'
     assert by_name['ec_spki_comp']['compressed'] is True
     assert by_name['ec_spki']['compressed'] is False
     if have_ciphers:
